@@ -45,6 +45,10 @@ claimed = {
    text="Theorems on the configuration model: for each of the seven settings that exist both as an option and in typeshare.toml the effective value is option, else file, else default (precedence); the file-only settings are passed through unchanged (the model is parametric in them); target_os comes from the command line only; the only failure is Go without a package; -g never overwrites; what -g stores reloads to the same effective settings for every later command line (given TOML round-trips). Tied by the full 2x2 matrix per setting through the real binary (config found by -c and by ancestor search), observed in generated code and in the TOML written by -g, random file-only tables observed in generated code, overwrite refusal and reload equality.",
    note=TB + "clap option parsing and the toml crate are external and exercised through the binary; kotlin/scala module_name are dead settings (observed only in the emitted TOML).",
    tech="Lean 4 proof (case analysis on the override function) + exhaustive option/key matrix through the binary"),
+ "C19": dict(ref="8/C19",
+   text="Partial. Proved on the model of the attribute macro: the expansion of a struct/enum/union is the item with exactly the attributes whose path is `typeshare` removed from variants, variant fields, struct fields and union fields - other attributes kept in order (sub-list theorem, interleaving theorem), item-level attributes, heads, field/variant bodies, their number and order untouched, idempotent, identity on items without helper attributes and on every non-DeriveInput item. Tied by expanding hundreds of generated items with the real macro inside rustc and capturing the token stream rustc hands on (a second attribute macro, harness/attrdump), compared with the model's expansion modulo white-space. Not proved: that rustc / serde derive behave identically on syntactically identical token streams (trusted).",
+   note=TB + "rustc and the proc-macro bridge are external; cfg/cfg_attr on the item itself are evaluated by rustc before the macro runs and are kept out of the item position of the generator.",
+   tech="Lean 4 proof (list filter/sublist/permutation lemmas) + in-rustc expansion capture"),
 }
 checks = []
 for pid, c in claimed.items():
